@@ -414,6 +414,9 @@ class PulseSequence:
         cls = self.__class__
         copied = cls.__new__(cls)
         copied.__dict__.update(self.__dict__)
+        # The copy needs its own dict of intermediates since it is mutated
+        # in-place when caching or cleaning up
+        copied._intermediates = dict(self._intermediates)
         return copied
 
     def __deepcopy__(self, memo=None) -> 'PulseSequence':
